@@ -304,6 +304,32 @@ fn water() -> Mh2oChunk {
             attributes: Some(Mh2oAttributes { fishable: u64::MAX, deep: 0 }),
         };
     }
+    // entries 2..5: every vertex format with the FULL extent (8x8 tiles at offset 0: all 81 vertices, bitmap all ones)
+    // so that a single off-by-one in an extent field already leaves the 9x9 grid
+    {
+        let full = |lvf: u16| inst(3 + lvf, lvf, 0, 0, 8, 8);
+        let mut g0: Box<[Option<HeightDepthVertex>; 81]> = Box::new([None; 81]);
+        let mut g1: Box<[Option<HeightUvVertex>; 81]> = Box::new([None; 81]);
+        let mut g2: Box<[Option<DepthOnlyVertex>; 81]> = Box::new([None; 81]);
+        let mut g3: Box<[Option<HeightUvDepthVertex>; 81]> = Box::new([None; 81]);
+        for i in 0..81usize {
+            g0[i] = Some(HeightDepthVertex { height: 9.0 + i as f32 * 0.01, depth: i as u8 });
+            g1[i] = Some(HeightUvVertex { height: 9.5, uv: UvMapEntry { u: i as u16, v: (2 * i) as u16 } });
+            g2[i] = Some(DepthOnlyVertex { depth: (255 - i) as u8 });
+            g3[i] = Some(HeightUvDepthVertex { height: 8.0, uv: UvMapEntry { u: 1, v: i as u16 }, depth: i as u8 });
+        }
+        let mk = |i: Mh2oInstance, v: VertexDataArray| Mh2oEntry {
+            header: hdr,
+            instances: vec![i],
+            vertex_data: vec![Some(v)],
+            exists_bitmaps: vec![Some(u64::MAX)],
+            attributes: None,
+        };
+        c.entries[2] = mk(full(3), VertexDataArray::HeightUvDepth(g3));
+        c.entries[3] = mk(full(0), VertexDataArray::HeightDepth(g0));
+        c.entries[4] = mk(full(1), VertexDataArray::HeightUv(g1));
+        c.entries[5] = mk(full(2), VertexDataArray::DepthOnly(g2));
+    }
     // entry 255: LVF 3 (height + uv + depth) 2x1
     {
         let i0 = inst(19, 3, 3, 4, 2, 1);
@@ -744,15 +770,8 @@ fn inventory(s: &mut Seed, mcnk_has_header: bool) {
         let end = o + tot;
         let nh = ((tot - 8) / 12).min(256);
         let liquid: Vec<usize> = (0..nh).filter(|&k| s.u32_at(p + 12 * k + 4) != 0).collect();
-        let mut pick = Vec::new();
-        for &k in liquid.iter().take(2) {
-            pick.push(k);
-        }
-        if let Some(&l) = liquid.last() {
-            if !pick.contains(&l) {
-                pick.push(l);
-            }
-        }
+        // every entry that has liquid (the seed has 8: each vertex format with a partial and a full-extent rectangle)
+        let mut pick: Vec<usize> = liquid.iter().cloned().take(12).collect();
         if let Some(e) = (0..nh).find(|k| !liquid.contains(k)) {
             pick.push(e);
         }
@@ -762,15 +781,16 @@ fn inventory(s: &mut Seed, mcnk_has_header: bool) {
             s.field_ex(e, 4, "offset", format!("MH2O[{k}].ofs_instances"), p, 1, None);
             s.field_ex(e + 4, 4, "count", format!("MH2O[{k}].layer_count"), (p + oi).min(end), 24, None);
             s.field_ex(e + 8, 4, "offset", format!("MH2O[{k}].ofs_attributes"), p, 1, None);
-            if oi != 0 && p + oi + 24 <= end && rank < 3 {
+            if oi != 0 && p + oi + 24 <= end && rank < 12 {
                 let q = p + oi;
                 let nm = |f: &str| format!("MH2O[{k}].inst[0].{f}");
                 s.field(q, 2, "index", nm("liquid_type"));
                 s.field(q + 2, 2, "index", nm("lvf"));
-                s.field(q + 12, 1, "index", nm("x_offset"));
-                s.field(q + 13, 1, "index", nm("y_offset"));
-                s.field(q + 14, 1, "count", nm("width"));
-                s.field(q + 15, 1, "count", nm("height"));
+                // rectangle inside the 8x8 tile grid: extent role (boundary set 0, 1, 7, 8, 9, 255, ...; sibling pairs)
+                s.field(q + 12, 1, "extent", nm("x_offset"));
+                s.field(q + 13, 1, "extent", nm("y_offset"));
+                s.field(q + 14, 1, "extent", nm("width"));
+                s.field(q + 15, 1, "extent", nm("height"));
                 s.field_ex(q + 16, 4, "offset", nm("ofs_exists_bitmap"), p, 1, None);
                 s.field_ex(q + 20, 4, "offset", nm("ofs_vertex_data"), p, 1, None);
             }
